@@ -231,6 +231,43 @@ def nested_global_programs():
   return out
 
 
+# Numbered variants of generated names, used while the unnumbered stem is NOT a user name, in
+# a function that needs the stem several times.
+def numbered_variant_programs():
+  out = []
+  shapes = {
+      'param': ('def f(x, n, b, %(N)s):', '', '%(N)s'),
+      'local': ('def f(x, n, b, xs):', '  %(N)s = len(xs) + 3\n', '%(N)s'),
+      'global': ('def f(x, n, b, xs):', '', '%(N)s'),
+  }
+  for nm in ['if_body_1', 'loop_body_1', 'get_state_1', 'set_state_2', 'do_return_1', 'break__1']:
+    for role, (hdr, pre, use) in sorted(shapes.items()):
+      src = (hdr + '\n' + pre + '''  a = 0
+  if x > 0:
+    a = a + 1
+  else:
+    a = a - 1
+  if b:
+    a = a + 2
+  w = 0
+  while w < n:
+    w = w + 1
+    if w == x:
+      continue
+    if w > 3:
+      break
+    a = a + w
+  def h(p):
+    if p > x:
+      return (p, USE)
+    return (0, USE)
+  return (a, USE, h(n))
+''').replace('USE', use) % {'N': nm}
+      params = [('x', 'int'), ('n', 'int'), ('b', 'bool'), (nm if role == 'param' else 'xs', 'List[int]')]
+      out.append(gen.Prog('num:%s:%s' % (role, nm), src, {'numbered', 'exotic'}, {nm: 41} if role == 'global' else None, params))
+  return out
+
+
 # A user variable named like the injected operator module. Listed known finding: re-observed
 # on every run through this witness.
 WITNESS = [
@@ -348,6 +385,7 @@ def run(tier):
   from vf import exotic
   base += [p for p in exotic.programs() if 'global' not in p.name]
   progs = [adversarial(p, rnd) for p in base] + closure_programs() + param_role_programs() + nested_global_programs()
+  progs += numbered_variant_programs()
   progs += [gen.Prog(n, src, {'witness'}) for n, src in WITNESS]
   bounds = {'n': 3, 'len': 2}
   pct, ppt = (15.0, 4.0) if tier == 'quick' else (60.0, 10.0)
